@@ -23,6 +23,8 @@ NESTED_SRCS = [
     'x = [a, [1]]\ny = [1, [b]]', '(a + 1) * (2 + b)', 'def f():\n    [a, [1]]\n    def g():\n        [1, [b]]\n    return [g, [2]]\n',
     'class C:\n    x = [a, [1]]\n    def m(self):\n        return [1, [self]]\n', 'lambda: [a, [lambda: [1, [b]]]]',
     '[[x for x in [a, [1]]], [1, [y for y in b]]]',
+    # the same structure in different expression contexts (match option ctx)
+    'a = a + 1\ndel a\nfor a in a: a.b = a.b\nwith a as a: a[0] = a[0]; del a[0], a.b',
     # comprehensions whose first iterable (it belongs to the enclosing scope) is not a bare name
     'def f(self):\n    return [r for r in self.rows()]\n',
     'def g(d):\n    return {k: v for k, v in d.items() if k}, (x for x in a.b[c])\n',
@@ -58,6 +60,14 @@ def patterns(ser):
         ('MTYPES(List,Tuple;elts=[Name,*])', lambda: M.MTYPES((ast.List, ast.Tuple), elts=[M.M(**{TN(0): ast.Name}), M.MQSTAR]), None),
         ('Mstmt(body=[t0,*])', lambda: M.Mstmt(body=[M.M(**{TN(0): ast.Expr}), M.MQSTAR]), None),
         ('MFunctionDef', lambda: M.M(**{TN(0): M.MFunctionDef}), ['m', ['type', n[ast.FunctionDef]], 0, []]),
+        # AST instances with expr_context instances: with ctx=True the context must be the same, with ctx=False any
+        ('Name(a,Store())', lambda: ast.Name(id='a', ctx=ast.Store()),
+         ['node', n[ast.Name], [['node', ser.prim('a'), []], ['type', n[ast.expr_context]]]]),
+        ('M(t0=Name(a,Load()))', lambda: M.M(**{TN(0): ast.Name(id='a', ctx=ast.Load())}),
+         ['m', ['node', n[ast.Name], [['node', ser.prim('a'), []], ['type', n[ast.expr_context]]]], 0, []]),
+        ('Store()', lambda: ast.Store(), ['ctx']),
+        ('MOR(t0=Del(),t1=Attribute(a.b,Store()))',
+         lambda: M.MOR(**{TN(0): ast.Del(), TN(1): ast.Attribute(value=ast.Name(id='a', ctx=ast.Load()), attr='b', ctx=ast.Store())}), None),
         # patterns search() can pre-filter down to one or two node types
         ('Name', lambda: ast.Name, ['type', n[ast.Name]]),
         ('M(t0=MName)', lambda: M.M(**{TN(0): M.MName}), ['m', ['type', n[ast.Name]], 0, []]),
@@ -78,7 +88,10 @@ def canon_tags(m, ids):
     return out
 
 
-def expected(root, pat, ids, on, nested, back, scope):
+CTX_SENSITIVE = ('Name(a,Store())', 'M(t0=Name(a,Load()))', 'Store()', 'MOR(t0=Del(),t1=Attribute(a.b,Store()))')
+
+
+def expected(root, pat, ids, on, nested, back, scope, ctxopt=False):
     """plain walk driven by hand: every event is judged by match() on its own node; nested=False declines recursion
     with send(False) after a matched event, exactly what search() documents (the reaction of walk() to send() is the
     subject of C14/C15 and is taken from the real walk)"""
@@ -86,7 +99,7 @@ def expected(root, pat, ids, on, nested, back, scope):
     out = []
     for r in gen:
         f, leaving = r if on == 'both' else (r, on == 'leave')
-        m = f.match(pat)
+        m = f.match(pat, ctx=ctxopt)
         if m is None:
             continue
         out.append([ids[id(f.a)], leaving, canon_tags(m, ids)])
@@ -95,9 +108,9 @@ def expected(root, pat, ids, on, nested, back, scope):
     return out
 
 
-def actual(root, pat, ids, on, nested, back, scope):
+def actual(root, pat, ids, on, nested, back, scope, ctxopt=False):
     out = []
-    for r in root.search(pat, nested, on=on, back=back, scope=scope):
+    for r in root.search(pat, nested, on=on, back=back, scope=scope, ctx=ctxopt):
         if on == 'both':
             m, leaving = r
         else:
@@ -132,23 +145,23 @@ def _case(arg):
             for on in ON:
                 for nested in (True, False):
                     for back in (False, True):
-                        for scope in (False, True):
+                        for scope, ctxopt in [(sc, cx) for sc in (False, True) for cx in ((False, True) if name in CTX_SENSITIVE else (False,))]:
                             if scope and on != 'enter':
                                 continue        # NotImplementedError by design: scope=True is only supported for on='enter'
                             if start is not root and not scope and rng.random() < 0.5:
                                 continue
                             item = {'name': name, 'src': src, 'start': ids[id(start.a)], 'on': on, 'nested': nested, 'back': back,
-                                    'scope': scope}
+                                    'scope': scope, 'ctx': ctxopt}
                             try:
-                                item['got'] = L.call_with_timeout(20, actual, start, pat, ids, on, nested, back, scope)
-                                item['want'] = L.call_with_timeout(20, expected, start, pat, ids, on, nested, back, scope)
+                                item['got'] = L.call_with_timeout(20, actual, start, pat, ids, on, nested, back, scope, ctxopt)
+                                item['want'] = L.call_with_timeout(20, expected, start, pat, ids, on, nested, back, scope, ctxopt)
                             except L.Timeout as e:
                                 item['exc'] = 'does-not-terminate: ' + str(e)
                                 out.append(item)
                                 return out          # do not spend the budget on more non-terminating calls
                             except Exception as e:      # noqa: BLE001
                                 item['exc'] = type(e).__name__ + ': ' + str(e)[:120]
-                            if js and start is root and nested and not back and not scope:
+                            if js and start is root and nested and not back and not scope and not ctxopt:
                                 item['case'] = {'f': 'C17.searchOn', 'p': js, 't': tree, 'on': on}
                             out.append(item)
     return out
@@ -168,7 +181,7 @@ def _runs(ctx):
 
 
 def _mode(it):
-    return f'on={it["on"]},nested={it["nested"]},back={it["back"]},scope={it["scope"]}'
+    return f'on={it["on"]},nested={it["nested"]},back={it["back"]},scope={it["scope"]},ctx={it.get("ctx", False)}'
 
 
 def classify(got, want):
@@ -222,7 +235,7 @@ def sweep(ctx):
         ctx.count(None)
         ctx.tally('search_events_on', it['on'])
         w = {'kind': 'events', 'src': it['src'], 'pattern': it['name'], 'start': it['start'], 'on': it['on'], 'nested': it['nested'],
-             'back': it['back'], 'scope': it['scope']}
+             'back': it['back'], 'scope': it['scope'], 'ctx': it.get('ctx', False)}
         if 'exc' in it:
             sig = f'C17|search-events|on={it["on"]},nested={it["nested"]}|' + ('does-not-terminate' if it['exc'].startswith('does-not') else 'raised')
             seen[sig] = seen.get(sig, 0) + 1
@@ -232,7 +245,7 @@ def sweep(ctx):
         if it['got'] == it['want']:
             continue
         cls = classify(it['got'], it['want'])
-        sig = f'C17|search-events|on={it["on"]},nested={it["nested"]}|{cls}'
+        sig = f'C17|search-events|on={it["on"]},nested={it["nested"]}' + (',ctx=True' if it.get('ctx') else '') + f'|{cls}'
         seen[sig] = seen.get(sig, 0) + 1
         if seen[sig] <= 2:
             ctx.fail(sig, f'search({it["name"]}, {_mode(it)}) on {it["src"][:80]!r}: yields events (node, leaving, tags) {it["got"]}, '
@@ -251,8 +264,8 @@ def replay(ctx, w):
     for name, mk, js in patterns(ser):
         if name == w['pattern']:
             pat = mk()
-            got = actual(start, pat, ids, w['on'], w['nested'], w['back'], w['scope'])
-            want = expected(start, pat, ids, w['on'], w['nested'], w['back'], w['scope'])
+            got = actual(start, pat, ids, w['on'], w['nested'], w['back'], w['scope'], w.get('ctx', False))
+            want = expected(start, pat, ids, w['on'], w['nested'], w['back'], w['scope'], w.get('ctx', False))
             if got != want:
                 ctx.fail('replay', f'search events {got}, expected {want}', w)
             return
